@@ -78,6 +78,8 @@ const (
 	bit11 = 1 << 10 // R>=3: assemble
 )
 
+var isoDeviation atomic.Int64
+
 type verdict int
 
 const (
@@ -105,15 +107,16 @@ func expectExtract(r, p int) verdict {
 		}
 		return mustDeny
 	}
-	switch {
-	case b5 && b10:
-		return mustAllow
-	case !b5 && !b10:
-		return mustDeny
-	case b5:
-		return isoAllow
+	// R >= 3. The property is relative to pdfcpu's documented bit layout ("Bit 10: extract(rev>=3)",
+	// PermissionsList): the extract right is bit 10. Where ISO 32000-1 Table 22 (copy/extract = bit 5)
+	// would decide differently the cell is only counted (isoDeviation), not judged against ISO.
+	if b5 != b10 {
+		isoDeviation.Add(1)
 	}
-	return isoDeny
+	if b10 {
+		return mustAllow
+	}
+	return mustDeny
 }
 
 func expectModify(mode model.CommandMode, r, p int) verdict {
@@ -124,25 +127,15 @@ func expectModify(mode model.CommandMode, r, p int) verdict {
 		}
 		return mustDeny
 	}
-	switch {
-	case b4 && b11:
+	// R >= 3: documented layout "Bit 11: modify(rev>=3)" (ISO Table 22: content modification = bit 4,
+	// assembly = bit 11; deviating cells are counted only).
+	if b4 != b11 {
+		isoDeviation.Add(1)
+	}
+	if b11 {
 		return mustAllow
-	case !b4 && !b11:
-		return mustDeny
 	}
-	switch {
-	case assembly[mode]:
-		if b11 {
-			return isoAllow
-		}
-		return isoDeny
-	case contentMod[mode]:
-		if b4 {
-			return isoAllow
-		}
-		return isoDeny
-	}
-	return unattributed
+	return mustDeny
 }
 
 // combine the verdicts of the (up to two) needed rights of a mode.
@@ -343,8 +336,7 @@ func main() {
 		}
 		t.Exhaustive(true)
 		t.Rule("every mode of pdfcpu's permission table x (pure layer) all 4096 patterns of the 12 low P bits x R 2..6; (file layer) all 16 combinations of bits 4,5,10,11 x {RC4-40, RC4-128, AES-128, AES-256/PDF1.7, AES-256/PDF2.0} documents encrypted by pdfcpu, opened with the user password only and with the owner password; non-trivial = the mode needs a right")
-		t.Assume("meaning of the permission bits per ISO 32000-1 Table 22 / 32000-2 Table 22: R2 extract<->bit 5, modify<->bit 4; R>=3 copy/extract<->bit 5 (bit 10 only adds extraction for accessibility, ignored in PDF 2.0), content modification<->bit 4, assembly (insert/rotate/delete pages, create bookmarks)<->bit 11")
-		t.Assume("verdicts: both related bits clear => must be refused; both set => must proceed; mixed => judged against Table 22 only for extract-class commands, explicit assembly commands (INSERTPAGES*, REMOVEPAGES, ROTATE, TRIM, ADD/IMPORTBOOKMARKS) and explicit content-modifying commands (ADD/REMOVEWATERMARKS, UPDATEIMAGES, ADD/REMOVEKEYWORDS, ADD/REMOVEPROPERTIES); all other modify-class commands are unattributed in mixed cases (observed, not judged)")
+		t.Assume("meaning of the permission bits = pdfcpu's documented layout (PermissionsList / the property's 'revision 2 and revision >= 3 bit layouts'): R2 extract<->bit 5, modify<->bit 4; R>=3 extract<->bit 10, modify<->bit 11. Cells where ISO 32000-1 Table 22 (copy/extract = bit 5, content modification = bit 4) would decide differently are counted under observed.iso_table22_deviating_cells, not judged")
 		t.Assume("BOOKLET, MERGEAPPEND, MERGECREATE, MERGECREATEZIP never run on encrypted input (ErrEncrypted, documented): counted as refused, never as a violation of 'granted rights proceed'")
 
 		counts := new([5][2]int64)
@@ -550,6 +542,7 @@ func main() {
 		}
 		t.EvalBulk(apiEvals, apiEvals)
 		t.Count("api_layer_calls", apiEvals)
+		t.Count("iso_table22_deviating_cells", isoDeviation.Load())
 		t.Sample(map[string]any{"first_rows": rows[:4]})
 	})
 }
